@@ -406,7 +406,62 @@ func caseOnlyNames() []engine.Violation {
 	return vs
 }
 
+// memberStatus: the status of an enum or of a derived identity does not take it out of the value space
+// (RFC 6020 7.19.2: obsolete definitions may still be implemented; the value space is what is declared).
+func memberStatus() []engine.Violation {
+	mods := map[string]string{
+		"sb": "module sb { namespace \"urn:sb\"; prefix sb; import a { prefix a; } identity far { base a:base; status obsolete; } identity farcur { base a:base; } }",
+		"a": "module a { namespace \"urn:a\"; prefix a; identity base; identity cur { base base; } identity dep { base base; status deprecated; } identity obs { base base; status obsolete; } identity below { base obs; status obsolete; }" +
+			" typedef et { type enumeration { enum one; enum two { status obsolete; } enum three { status deprecated; } } }" +
+			" leaf idl { type identityref { base base; } } leaf en { type et; } leaf en2 { type enumeration { enum only { status obsolete; } } }" +
+			" leaf un { type union { type int8; type enumeration { enum auto { status obsolete; } enum none; } type identityref { base base; } } } }",
+	}
+	r := gen.Compile(mods, gen.Options{})
+	if !r.OK() {
+		return []engine.Violation{{Key: "type-does-not-compile:member-status", Detail: fmt.Sprint(r.Err, r.Panic)}}
+	}
+	want := map[string]map[string]bool{
+		"idl": {"cur": true, "dep": true, "obs": true, "below": true, "sb:far": true, "sb:farcur": true, "base": false, "nosuch": false},
+		"en":  {"one": true, "two": true, "three": true, "four": false, "": false},
+		"en2": {"only": true, "other": false},
+		"un":  {"5": true, "auto": true, "none": true, "obs": true, "cur": true, "zz": false},
+	}
+	var vs []engine.Violation
+	for name, table := range want {
+		n := r.MS.Child(name)
+		if n == nil {
+			vs = append(vs, engine.Violation{Key: "leaf-missing:member-status", Witness: name})
+			continue
+		}
+		for v, ok := range table {
+			var err error
+			var p any
+			func() {
+				defer func() { p = recover() }()
+				err = n.Type().Validate(valCtx{}, []string{name, v}, v)
+			}()
+			w := fmt.Sprintf("leaf %s, value %q (enums and derived identities with status current / deprecated / obsolete)", name, v)
+			switch {
+			case p != nil:
+				vs = append(vs, engine.Violation{Key: "panic:member-status:" + name, Witness: w, Detail: fmt.Sprint(p)})
+			case ok && err != nil:
+				vs = append(vs, engine.Violation{Key: "rejects-member:member-status:" + name, Witness: w, Detail: err.Error()})
+			case !ok && err == nil:
+				vs = append(vs, engine.Violation{Key: "accepts-non-member:member-status:" + name, Witness: w, Detail: "Validate accepts it"})
+			}
+		}
+	}
+	return vs
+}
+
 func run(c *engine.Ctx) {
+	if c.Shard == 0 && c.Case("member-status") {
+		c.Add("states", 1)
+		c.Nontrivial()
+		for _, v := range memberStatus() {
+			c.Report(v)
+		}
+	}
 	if c.Shard == 0 && c.Case("names-differing-in-case") {
 		c.Add("states", 1)
 		c.Nontrivial()
